@@ -1,3 +1,4 @@
+import os
 from engine import Query
 META = {
  'functions': [],
@@ -5,7 +6,10 @@ META = {
  'outside': '',
  'assumptions': [],
 }
-RT_CTTZ_NARROW = True   # q2c/vf_rt.h lacks vf_cttz8/vf_cttz16: the harness supplies them; set False once the runtime has them
+RT_SUPPLY_MISSING = True   # q2c/vf_rt.h lacks vf_cttz8/16 and vf_fshl/fshr<w>: the harness supplies them; set False once the runtime has them
+# Testing aid: with C19_KF_MANUAL=1 in the environment the KF_EXCL_* / KF_ONLY_* defines are passed directly (as if every C19 finding
+# were open in known_findings.json); the kf_only queries then show up as VIOLATION lines instead of KNOWN-FINDING.
+KF_MANUAL = os.environ.get('C19_KF_MANUAL', '') == '1'
 PRIV = ['-Dprivate=public', '-Dprotected=public']
 INST = {   # name: (word type, word bits, declared width)
  'u8x32':   ('unsigned char', 8, 32),
@@ -16,14 +20,23 @@ INST = {   # name: (word type, word bits, declared width)
  'u64x192': ('unsigned long long', 64, 192),
  'u64x256': ('unsigned long long', 64, 256),
 }
+NARROW = {'u8': 'unsigned char', 'u16': 'unsigned short', 'u32': 'unsigned int', 'u64': 'unsigned long long', 'u128': 'unsigned __int128'}
 def nwords(i): return (INST[i][2] + INST[i][1] - 1) // INST[i][1]
+
+def kf(q_kwargs, defs):
+    """known-finding protocol, or its manual emulation"""
+    if not KF_MANUAL: return
+    for k in q_kwargs.pop('kf_excl', ()): defs['KF_EXCL_' + k.replace('-', '_')] = 1
+    k = q_kwargs.pop('kf_only', None)
+    if k: defs['KF_ONLY_' + k.replace('-', '_')] = 1
 
 def bq(inst, entry, name=None, defs=None, **kw):
     w, wb, bits = INST[inst]
     nw = nwords(inst)
     d = {'WORD': w, 'WBITS': wb, 'BITS': bits}
-    if RT_CTTZ_NARROW and wb < 32: d['RT_CTTZ_NARROW'] = 1
+    if RT_SUPPLY_MISSING: d['RT_SUPPLY_MISSING'] = 1
     d.update(defs or {})
+    kf(kw, d)
     chunks = (64 if wb < 64 else 128) // wb
     b = {'top_chunk|m_.*_wide': chunks + 1, 'vf_ctlz8': 9, 'vf_ctlz16': 17}
     b.update(kw.pop('bounds', {}))
@@ -32,21 +45,52 @@ def bq(inst, entry, name=None, defs=None, **kw):
     return Query('%s/%s' % (inst, name or entry[2:]), 'C19_bigint.cpp', entry, d, bounds=b, default_unwind=nw + 1,
                  cflags=PRIV, **kw)
 
-OPS = ['h_add', 'h_add_op', 'h_sub', 'h_sub_op', 'h_shr', 'h_or', 'h_flb', 'h_cmp', 'h_set', 'h_clear', 'h_copy_ctor']
+PLAIN = ['h_add', 'h_add_op', 'h_sub', 'h_sub_op', 'h_shr', 'h_or', 'h_flb', 'h_cmp', 'h_set', 'h_clear', 'h_copy_ctor']
+# entry -> known finding whose predicate is assumed away in the proving query
+WITH_KF = {'h_shl': 'C19-shl-zero', 'h_and': 'C19-and-stale', 'h_and_wide': 'C19-and-stale', 'h_ffb': 'C19-ffb',
+           'h_copy_assign': 'C19-copy-stale'}
 
 def queries(tier):
-    insts = ['u8x32', 'u16x64', 'u32x96', 'u64x128', 'u64x192'] if tier == 'quick' else list(INST)
+    quick = (tier == 'quick')
+    insts = ['u8x32', 'u16x64', 'u32x96', 'u64x128', 'u64x192'] if quick else list(INST)
     qs = []
     for i in insts:
-        for e in OPS:
+        for e in PLAIN:
             qs.append(bq(i, e))
-        qs.append(bq(i, 'h_shl'))
-        qs.append(bq(i, 'h_and'))
-        qs.append(bq(i, 'h_and_wide'))
-        qs.append(bq(i, 'h_ffb'))
-        qs.append(bq(i, 'h_copy_assign'))
-        qs.append(bq(i, 'h_mul', defs={'DS_CONTRACT': 1, 'KF_EXCL_C19_mul_zero': 1}))
-        qs.append(bq(i, 'h_mul', name='mul3', defs={'DS_CONTRACT': 1, 'KF_EXCL_C19_mul_zero': 1, 'IDX': nwords(i)-1}))
-        qs.append(bq(i, 'h_div'))
-        qs.append(bq(i, 'h_narrow'))
+        for e, f in WITH_KF.items():
+            qs.append(bq(i, e, kf_excl=[f] + (['C19-and-oob'] if e.startswith('h_and') and INST[i][2] < 64 else [])))
+        for n in (['u8', 'u32', 'u64'] if quick else list(NARROW)):
+            qs.append(bq(i, 'h_narrow', name='narrow/' + n, defs={'NARROW': NARROW[n]}))
+        # Multiply / Divide over the contract of the double-word helper (the helper itself: C19_dsize.cpp)
+        qs.append(bq(i, 'h_mul', defs={'DS_CONTRACT': 1}, kf_excl=['C19-mul-zero']))
+        qs.append(bq(i, 'h_div_mod', defs={'DS_CONTRACT': 1}))
+        qs.append(bq(i, 'h_div_top', defs={'DS_CONTRACT': 1, 'DS_PRE_ASSUMED': 1}, backend='z3'))
+    # one counterexample query per known finding
+    for i in (['u64x192'] if quick else ['u8x32', 'u64x192']):
+        for e, f in WITH_KF.items():
+            if e == 'h_and_wide': continue
+            qs.append(bq(i, e, name='kf/' + e[2:], kf_only=f))
+        qs.append(bq(i, 'h_mul', name='kf/mul', defs={'DS_CONTRACT': 1}, kf_only='C19-mul-zero'))
+    qs.append(bq('u8x32', 'h_and_wide', name='kf/and_oob', kf_only='C19-and-oob'))   # needs an operand type wider than the BigInt
+    # ---- the double-word helpers themselves -------------------------------------------------------------------------------
+    for n, (w, wb) in {'u8': ('unsigned char', 8), 'u16': ('unsigned short', 16), 'u32': ('unsigned int', 32)}.items():
+        qs.append(dq('ds_mul/' + n, 'h_ds_mul', w, wb))
+        qs.append(dq('ds_div/' + n, 'h_ds_div', w, wb))
+    U64 = 'unsigned long long'
+    qs.append(dq('ds_mul/u64', 'h_ds_mul', U64, 64, backend='cvc5int'))
+    # Divide<u64>: every divisor the library itself passes (Digit.hpp: 10^19 and 5^k, k <= 27), all dividends
+    pows = [1, 13, 27] if quick else list(range(0, 28))
+    divisors = [('1e19', 10 ** 19)] + [('5e%d' % k, 5 ** k) for k in pows]
+    for n, v in divisors:
+        qs.append(dq('ds_div/u64/d=' + n, 'h_ds_div', U64, 64, defs={'DIVISOR': '%dULL' % v}, backend='cvc5int'))
+    # arbitrary 64-bit divisors: counterexample search only (a proof is out of reach)
+    qs.append(dq('ds_div/u64/kf/div_odd', 'h_ds_div', U64, 64, backend='kissat', kf_only='C19-div-odd'))
     return qs
+
+def dq(name, entry, w, wb, defs=None, **kw):
+    d = {'WORD': w, 'WBITS': wb}
+    d.update(defs or {})
+    kf(kw, d)
+    kw.setdefault('timeout', 300)
+    kw.setdefault('mem_gb', 8)
+    return Query(name, 'C19_dsize.cpp', entry, d, default_unwind=2, **kw)
